@@ -43,3 +43,30 @@ for P in $PROP $ALSO; do
   grep -A1 '^VIOLATION' /dev/shm/seeded-$ID-check-$P.log | grep 'sig=' | cut -c1-220 | head -5
 done
 echo "summary id=$ID demo_unpatched=$RC0 demo_patched=$RC1"
+# record the evaluation in meta.json (an existing "history" text is kept)
+BASE=$(git -C /repo rev-parse --short HEAD) python3 - "$D/meta.json" "$ID" "$TIER" "$RC0" "$RC1" $PROP $ALSO <<'PY'
+import json,sys,os,re
+meta,ID,tier,rc0,rc1=sys.argv[1:6]; props=sys.argv[6:]
+m=json.load(open(meta))
+old=m.get('evaluation',{})
+evl={'base_commit':os.environ['BASE'],'compiles':True,'baseline_199_pass':True,
+     'demo_unpatched_exit':int(rc0),'demo_patched_exit':int(rc1),'checks_run':[],'detected':False,'violations':[],'detected_by':[]}
+for p in props:
+    log='/dev/shm/seeded-%s-check-%s.log'%(ID,p)
+    evl['checks_run'].append('./check %s %s (VERIF_REPO=scratch worktree)'%(p,tier))
+    sigs=[]
+    try:
+        for l in open(log,errors='replace'):
+            mm=re.match(r'\s+sig=(.*?) count=',l)
+            if mm: sigs.append(p+': '+mm.group(1))
+    except FileNotFoundError: pass
+    if sigs:
+        evl['detected_by'].append(p)
+        evl['violations']+=sigs[:6]
+evl['detected']= m['property'] in evl['detected_by']
+evl['detected_by_other_check_only']= (not evl['detected']) and bool(evl['detected_by'])
+if old.get('history'): evl['history']=old['history']
+m['evaluation']=evl
+json.dump(m,open(meta,'w'),indent=1)
+print('recorded: detected=%s by=%s'%(evl['detected'],evl['detected_by']))
+PY
